@@ -25,7 +25,14 @@ def k3_score_exceeds_u16(line, issue):
     return bool(m) and int(m.group(1)) == 65535 and int(m.group(2)) > 65535
 
 
+def k2_lost_wakeup(line, issue):
+    """C13: the run read should_notify (false) and was still holding the worker lock when a tick timed out,
+    re-armed the flag and returned running=true; the run then finished without notifying"""
+    return "the run had read should_notify before the tick re-armed it" in issue and "tick:2:" in line
+
+
 PREDICATES = {
+    "lost_wakeup_flag_read_before_rearm": k2_lost_wakeup,
     "ascii_hay_unicode_ascii_needle": k1_ascii_hay_unicode_ascii_needle,
     "score_exceeds_u16": k3_score_exceeds_u16,
 }
